@@ -16,7 +16,7 @@ from .. import graph_hist as H
 from .. import histprops as HP
 
 LEVEL = 'proof'
-NEEDS = ['SFValidate', 'CtorAcyclicProofs', 'CtorAcyclicLag', 'Extracted', 'SourceFacts', 'Base', 'Digraph', 'DigraphProofs', 'Names', 'Graph', 'GraphObs', 'GraphTS', 'GraphInv', 'GraphAcyclicLemmas', 'GraphAcyclicProofs']
+NEEDS = ['PyRt', 'PyRtLoop', 'TraversalGenLemmas', 'TraversalGenCyc', 'TraversalGenCycProofs', 'CorrTraversalBase', 'CorrTraversalGenCyc', 'SFValidate', 'CtorAcyclicProofs', 'CtorAcyclicLag', 'Extracted', 'SourceFacts', 'Base', 'Digraph', 'DigraphProofs', 'Names', 'Graph', 'GraphObs', 'GraphTS', 'GraphInv', 'GraphAcyclicLemmas', 'GraphAcyclicProofs']
 
 
 def acyclic(nodes, arcs):
@@ -214,6 +214,8 @@ def constructor_stream(run, tier, rng):
 
 
 def check(run, tier, seed):
+    from .. import travcorr
+    travcorr.traversal_correspondence(run, 'C02', tier, seed)
     rng = random.Random(seed + 2)
     HP.history_property(run, tier, seed, pid='C02', oracle=oracle, n_quick=200, n_thorough=3000,
                         gen_factory=lambda r, kind: CloseGen(r, kind),
@@ -229,6 +231,9 @@ def check(run, tier, seed):
 
 def replay(run, path):
     case = json.loads(open(path).read())
+    if case.get('kind') == 'traversal':
+        from .. import travcorr
+        return travcorr.replay(run, 'C02', case)
     if 'ops' in case:
         return HP.replay_file(run, path, oracle, 'C02')
     if 'matrix' in case.get('input', {}):
